@@ -4,7 +4,9 @@ package os
 
 // Contracts for package os (risor's OS abstraction), checked by /verif/govc. Property C13.
 
-//@ spec within(b, p) = p == b || prefixof(b + "/", p)
+// within: p is b or lies below it - the string prefix alone would admit "b/../x", so p is also required to be clean
+// (no "..", "." or empty segments); filepath.Join and filepath.Clean return clean paths.
+//@ spec within(b, p) = p == b || (prefixof(b + "/", p) && isclean(p))
 //@ spec confined(b, p) = b == "" || b == "/" || within(b, p)
 //@ spec noDD(p) = uf("noDD", bool, p)
 //@ spec isclean(p) = uf("isclean", bool, p)
@@ -129,9 +131,12 @@ package os
 // MkdirTemp creates the directory below the temp directory's path inside the mount findMount returned (KF-23
 // fixed). Assumed (stated with filepath.Join): a path built by joining a name onto a routed directory of a mount
 // source is routed to that source (a deeper mount shadowing the new name is not modelled).
+// The joined name really is a name: the pattern has no separator when the mount source is asked to create the
+// directory (KF-74 fixed: "x/../../data/evil" was created by the temp mount at another mount's path).
 //@ func (*VirtualOS).MkdirTemp
 //@ props C13
 //@ requires vosInv(osObj)
+//@ callpre[C13.mkdirtemp.name] Mkdir: !contains(pattern, "/")
 //@ func (*VirtualOS).Open
 //@ props C13
 //@ requires vosInv(osObj)
